@@ -48,8 +48,16 @@ type radSrv struct {
 	port   int    // closes can always be re-opened and is never answered by another process's stub
 
 	mu     sync.Mutex
-	mode   string // accept | reject | down
+	mode   string // accept | reject | down | park
 	secret []byte
+
+	// mode "park": the first Access-Request is kept unanswered (pppoe.Server.handlePAP stays inside
+	// radius.Client.Authenticate, on the server's one receive goroutine) until release() answers it; later datagrams
+	// (retransmissions) are ignored while one is held
+	held     *radius.Packet
+	heldAddr *net.UDPAddr
+	heldConn *net.UDPConn
+	parkedCh chan struct{} // one token per request that has been parked
 }
 
 var radSeq int
@@ -62,7 +70,8 @@ func newRadSrv() *radSrv {
 	if err != nil {
 		panic(err)
 	}
-	r := &radSrv{conn: c, ip: ip, port: c.LocalAddr().(*net.UDPAddr).Port, mode: "accept", secret: []byte("s3cret")}
+	r := &radSrv{conn: c, ip: ip, port: c.LocalAddr().(*net.UDPAddr).Port, mode: "accept", secret: []byte("s3cret"),
+		parkedCh: make(chan struct{}, 1)}
 	go r.loop(c)
 	return r
 }
@@ -102,6 +111,24 @@ func (r *radSrv) close() {
 	}
 }
 
+// release answers the parked Access-Request (accept or reject) and leaves park mode.
+func (r *radSrv) release(answer string) {
+	r.mu.Lock()
+	defer r.mu.Unlock()
+	r.mode = answer
+	if r.held == nil {
+		return
+	}
+	code := radius.CodeAccessReject
+	if answer == "accept" {
+		code = radius.CodeAccessAccept
+	}
+	if b, err := r.held.Response(code).Encode(); err == nil {
+		r.heldConn.WriteToUDP(b, r.heldAddr)
+	}
+	r.held, r.heldAddr, r.heldConn = nil, nil, nil
+}
+
 func (r *radSrv) loop(c *net.UDPConn) {
 	buf := make([]byte, 4096)
 	for {
@@ -115,6 +142,14 @@ func (r *radSrv) loop(c *net.UDPConn) {
 		}
 		r.mu.Lock()
 		mode := r.mode
+		if mode == "park" {
+			if r.held == nil {
+				r.held, r.heldAddr, r.heldConn = pkt, addr, c
+				r.parkedCh <- struct{}{}
+			}
+			r.mu.Unlock()
+			continue
+		}
 		r.mu.Unlock()
 		var resp *radius.Packet
 		switch mode {
@@ -138,6 +173,8 @@ type run struct {
 	rad    *radSrv
 	radius bool
 	cancel context.CancelFunc
+	// a PAP frame whose RADIUS exchange is parked: closed when receiveLoop has finished with the frame
+	parkDone chan struct{}
 }
 
 // feed hands one whole Ethernet frame to the server's own receiveLoop (one reused receive buffer, as in production)
@@ -152,6 +189,11 @@ func (r *run) feed(src net.HardwareAddr, etherType uint16, payload []byte) {
 
 func (comp) NewRun() hx.Run { return &run{} }
 func (r *run) Close() {
+	if r.parkDone != nil {
+		r.rad.release("reject")
+		<-r.parkDone
+		r.parkDone = nil
+	}
 	if r.cancel != nil {
 		r.cancel()
 		r.s.Stop()
@@ -319,7 +361,7 @@ func (r *run) Do(op string) string {
 			r.rad = newRadSrv()
 			cl, err := bngradius.NewClient(bngradius.ClientConfig{
 				Servers: []bngradius.ServerConfig{{Host: r.rad.ip.String(), Port: r.rad.port, Secret: "s3cret"}},
-				NASID:   "verif", Timeout: 3 * time.Second, Retries: 1,
+				NASID:   "verif", Timeout: 10 * time.Second, Retries: 1,
 			}, zap.NewNop())
 			if err != nil {
 				return "error " + err.Error()
@@ -336,7 +378,59 @@ func (r *run) Do(op string) string {
 		src = macOf(f[1])
 	}
 	sidOf := func(i int) uint16 { n, _ := strconv.Atoi(f[i]); return uint16(n) }
+	if r.parkDone != nil {
+		// the one receive goroutine sits in handlePAP's RADIUS call: no frame is taken off the socket; what still runs is
+		// the cleanup goroutine (the idle sweep) and the clock
+		switch f[0] {
+		case "sweep", "age":
+		case "authresume":
+			if len(f) != 2 || (f[1] != "accept" && f[1] != "reject") {
+				return "badop"
+			}
+			r.rad.release(f[1])
+			<-r.parkDone
+			r.parkDone = nil
+			return r.snapshot()
+		default:
+			return "busy"
+		}
+	}
+	prefix := ""
 	switch f[0] {
+	case "authresume":
+		if len(f) != 2 || (f[1] != "accept" && f[1] != "reject") {
+			return "badop"
+		}
+		return "notparked"
+	case "authpark": // authpark m<k> <sid> good|bad|empty: a PAP request whose Access-Request the RADIUS server leaves unanswered for now
+		if len(f) != 4 {
+			return "badop"
+		}
+		pass := "right"
+		if f[3] == "bad" {
+			pass = "wrong"
+		} else if f[3] == "empty" {
+			pass = ""
+		} else if f[3] != "good" {
+			return "badop"
+		}
+		var parked chan struct{}
+		if r.rad != nil {
+			r.rad.setMode("park")
+			parked = r.rad.parkedCh
+		}
+		done := make(chan struct{})
+		go func() {
+			defer close(done)
+			r.feed(src, pppoe.EtherTypePPPoESession, sess(sidOf(2), pppoe.ProtocolPAP, papReq(5, "user"+f[1], pass)))
+		}()
+		select {
+		case <-done: // no RADIUS exchange (no RADIUS client, empty password, frame not accepted): handled at once
+			prefix = "done "
+		case <-parked:
+			r.parkDone = done
+			prefix = "parked "
+		}
 	case "stop": // Server.Stop(), as the process does on shutdown (the caller's context is cancelled with it)
 		r.cancel()
 		r.s.Stop()
@@ -422,8 +516,7 @@ func (r *run) Do(op string) string {
 	default:
 		return "badop"
 	}
-	_ = context.Background
-	return r.snapshot()
+	return prefix + r.snapshot()
 }
 
 func (comp) Gen(rg *rand.Rand, tier string, emit func([]string)) {
@@ -507,8 +600,96 @@ func (comp) Gen(rg *rand.Rand, tier string, emit func([]string)) {
 		}
 		emit(seq)
 	}
+	// a PAP exchange that waits for RADIUS (handlePAP inside radius.Client.Authenticate on the one receive goroutine) while the
+	// idle sweep and the clock go on (review r-gaps A2): the sweep removes the very session that is being authenticated, or
+	// another one, or none; the answer is accept or reject; the session held an address before or not
+	k = 300
+	if tier == "thorough" {
+		k = 6000
+	}
+	for i := 0; i < k; i++ {
+		seq := []string{fmt.Sprintf("new radius %d", []int{29, 30}[rg.Intn(2)])}
+		ns := 1 + rg.Intn(3)
+		for m := 1; m <= ns; m++ {
+			seq = append(seq, fmt.Sprintf("padr m%d cookie", m))
+			if rg.Intn(3) == 0 {
+				seq = append(seq, fmt.Sprintf("lcp m%d %d cack", m, m))
+			}
+			if rg.Intn(3) == 0 {
+				seq = append(seq, fmt.Sprintf("pap m%d %d good accept", m, m)) // holds an address before the parked exchange
+			}
+		}
+		for round, rounds := 0, 1+rg.Intn(3); round < rounds; round++ {
+			if rg.Intn(3) == 0 {
+				seq = append(seq, fmt.Sprintf("age %d", 1+rg.Intn(3)))
+			}
+			m := 1 + rg.Intn(ns)
+			sid := m
+			if rg.Intn(8) == 0 {
+				sid = 1 + rg.Intn(ns+1) // someone else's session, or none
+			}
+			seq = append(seq, fmt.Sprintf("authpark m%d %d %s", m, sid, hx.Pick(rg, []string{"good", "good", "good", "bad", "empty"})))
+			for j, w := 0, rg.Intn(4); j < w; j++ {
+				switch x := rg.Intn(10); {
+				case x < 3:
+					seq = append(seq, fmt.Sprintf("age %d", 1+rg.Intn(3)))
+				case x < 7:
+					seq = append(seq, fmt.Sprintf("sweep %d", rg.Intn(4)))
+				case x < 8:
+					seq = append(seq, "sweep")
+				default: // a frame while the receive goroutine is busy
+					seq = append(seq, randOp(rg, ns, true))
+				}
+			}
+			seq = append(seq, "authresume "+hx.Pick(rg, []string{"accept", "accept", "reject"}))
+			for j, w := 0, rg.Intn(4); j < w; j++ {
+				switch x := rg.Intn(10); {
+				case x < 3:
+					seq = append(seq, fmt.Sprintf("ipcp m%d %d %s", m, sid, hx.Pick(rg, []string{"creq-ip", "cack"})))
+				case x < 5:
+					seq = append(seq, fmt.Sprintf("sweep %d", rg.Intn(4)))
+				case x < 6:
+					seq = append(seq, fmt.Sprintf("padr m%d cookie", 1+rg.Intn(ns+1)))
+				default:
+					seq = append(seq, randOp(rg, ns, true))
+				}
+			}
+		}
+		emit(seq)
+	}
 	if tier == "thorough" {
 		exhaustive(emit)
+		exhaustivePark(emit)
+	}
+}
+
+// exhaustivePark: one or two sessions (the first with or without an address), a parked PAP request of m1 on session 1, every
+// window of length <= 2 over {age 2, sweep 1, sweep 3, sweep, a frame}, both answers, every one-op continuation.
+func exhaustivePark(emit func([]string)) {
+	window := []string{"age 2", "sweep 1", "sweep 3", "sweep", "padt m1 1"}
+	after := []string{"ipcp m1 1 creq-ip", "padr m1 cookie", "pap m1 1 good accept", "sweep 1", "padt m1 1", "authresume accept", "authpark m1 1 good"}
+	for _, pre := range [][]string{{}, {"pap m1 1 good accept"}, {"padr m2 cookie", "pap m2 2 good accept"}, {"age 1"}} {
+		for _, pw := range []string{"good", "empty"} {
+			var ws [][]string
+			ws = append(ws, nil)
+			for _, a := range window {
+				ws = append(ws, []string{a})
+				for _, b := range window {
+					ws = append(ws, []string{a, b})
+				}
+			}
+			for _, w := range ws {
+				for _, ans := range []string{"accept", "reject"} {
+					for _, c := range after {
+						seq := append([]string{"new radius 29", "padr m1 cookie"}, pre...)
+						seq = append(seq, "authpark m1 1 "+pw)
+						seq = append(seq, w...)
+						seq = append(seq, "authresume "+ans, c, "sweep")
+						emit(seq)
+					}
+				}
+			}
+		}
 	}
 }
 
@@ -542,6 +723,13 @@ func randOp(rg *rand.Rand, macs int, useRad bool) string {
 	case x < 99:
 		return fmt.Sprintf("sweep %d", rg.Intn(4))
 	default:
+		if useRad && rg.Intn(2) == 0 {
+			// a PAP exchange parked at RADIUS, or the answer to one (most of what follows a park is `busy`)
+			if rg.Intn(2) == 0 {
+				return fmt.Sprintf("authpark %s %d good", m, sid)
+			}
+			return "authresume " + hx.Pick(rg, []string{"accept", "reject"})
+		}
 		return "sweep"
 	}
 }
